@@ -47,6 +47,8 @@ def seed_list(tier):
         {'kind': 'special', 'which': 'tflag635'},
         # CF time coordinate whose units are a valid but not canonical spelling
         {'kind': 'special', 'which': 'cftime'},
+        # CF coordinates with bounds variables (time_bounds, latitude_bounds): metadata keys of the functional forms
+        {'kind': 'special', 'which': 'cfbounds'},
         {'kind': 'sample', 'format': 'uamiv', 'path': 'camxfiles/uamiv/test.uamiv'},
         {'kind': 'sample', 'format': 'ffi1001', 'path': 'icarttfiles/test.ffi1001'},
     ]
@@ -124,6 +126,26 @@ class Prop(bfs.BfsProp):
                 v.units = 'K'
                 v[...] = [[1, 2], [3, 4], [5, 6]]
                 f.setCoords(['time'])
+            elif s['which'] == 'cfbounds':
+                f.createDimension('time', 3)
+                f.createDimension('nv', 2)
+                f.createDimension('latitude', 2)
+                tv = f.createVariable('time', 'd', ('time',))
+                tv.units = 'hours since 2000-01-01 00:00:00+0000'
+                tv[...] = [0.5, 1.5, 2.5]
+                tb = f.createVariable('time_bounds', 'd', ('time', 'nv'))
+                tb.units = tv.units
+                tb[...] = [[0., 1.], [1., 2.], [2., 3.]]
+                la = f.createVariable('latitude', 'd', ('latitude',))
+                la.units = 'degrees_north'
+                la[...] = [10., 20.]
+                lb = f.createVariable('latitude_bounds', 'd', ('latitude', 'nv'))
+                lb.units = 'degrees_north'
+                lb[...] = [[5., 15.], [15., 25.]]
+                v = f.createVariable('T', 'f', ('time', 'latitude'))
+                v.units = 'K'
+                v[...] = [[1, 2], [3, 4], [5, 6]]
+                f.setCoords(['time', 'latitude'])
             else:
                 f.createDimension('TSTEP', 2)
                 f.createDimension('VAR', 1)
